@@ -58,6 +58,9 @@ type Fetcher struct {
 	fetching map[interface{}]fetchingItem // Announced items, currently fetching
 	wg       sync.WaitGroup
 
+	// fetchTimerIdle is true if the fetch timer fired and wasn't rescheduled. Accessed only by the loop
+	fetchTimerIdle bool
+
 	parallelTasks *workers.Workers
 }
 
@@ -199,7 +202,9 @@ func (f *Fetcher) processNotification(notification announcesBatch, fetchTimer *t
 		})
 	}
 
-	if first && len(f.fetching) != 0 {
+	if (first && len(f.fetching) != 0) || f.fetchTimerIdle {
+		// if the timer isn't armed (nothing was announced when it fired last time), then it must be armed
+		// here even when nothing is fetching yet, i.e. when the announce was stored while fetching is suspended
 		f.rescheduleFetch(fetchTimer)
 	}
 }
@@ -299,8 +304,10 @@ func maxDuration(a, b time.Duration) time.Duration {
 func (f *Fetcher) rescheduleFetch(fetch *time.Timer) {
 	// Short circuit if no items are announced
 	if f.announces.Len() == 0 {
+		f.fetchTimerIdle = true
 		return
 	}
+	f.fetchTimerIdle = false
 	// Otherwise find the earliest expiring announcement
 	earliest := time.Now()
 	i := 0
